@@ -41,8 +41,11 @@ type c09Case struct {
 	Reconf string `json:"reconfigured,omitempty"`
 	// Resume: the client under test keeps a TLS session cache and connects three times;
 	// the later connections resume the session of the first and are judged like it.
-	Resume  bool  `json:"resume,omitempty"`
-	Choices []int `json:"choices,omitempty"`
+	Resume bool `json:"resume,omitempty"`
+	// PlainFirst: a client of the plain port authenticates (or tries to) before the TLS client
+	// under test connects - what one port's clients do must not change the other port's gate.
+	PlainFirst bool  `json:"plain_first,omitempty"`
+	Choices    []int `json:"choices,omitempty"`
 }
 
 func (c c09Case) name() string {
@@ -53,10 +56,13 @@ func (c c09Case) name() string {
 	if c.Resume {
 		n += "|resume"
 	}
+	if c.PlainFirst {
+		n += "|plain-first"
+	}
 	return n
 }
 
-var c09Creds = []string{"none", "plain-text", "self-signed", "foreign-ca", "expired", "wrong-name", "name-on-intermediate", "wrong-name+forged-extra", "valid"}
+var c09Creds = []string{"none", "plain-text", "self-signed", "foreign-ca", "expired", "wrong-name", "name-on-intermediate", "wrong-name+forged-extra", "wrong-name+san", "valid"}
 var c09Faults = []string{"complete", "abort-after-hello", "stall", "garbage"}
 var c09Configs = []string{"norule", "rule", "rule+pw"}
 
@@ -65,7 +71,7 @@ func c09Accepted(config, cred string) bool {
 	switch cred {
 	case "valid":
 		return true
-	case "wrong-name", "name-on-intermediate", "wrong-name+forged-extra":
+	case "wrong-name", "name-on-intermediate", "wrong-name+forged-extra", "wrong-name+san":
 		return config == "norule"
 	}
 	return false
@@ -295,6 +301,19 @@ func (w *c09World) body() {
 			return
 		}
 	}
+	if w.cs.PlainFirst {
+		step("clientP0", func() {
+			c, o := sched.Dial(fmt.Sprintf(":%d", c09PlainPort))
+			if o.Status != "ok" {
+				return
+			}
+			c.Do("AUTH", c09Pass)
+			c.Do("AUTH", "wrong")
+			c.Do("AUTH", "user", c09Pass)
+			c.Do("PING")
+			c.Close()
+		})
+	}
 	if w.cs.Between {
 		step("clientV1", func() { w.tlsClient("V1", w.cs.goodCred(), "complete") })
 	}
@@ -453,6 +472,12 @@ func c09Cases() []c09Case {
 			out = append(out, c09Case{Config: cfg, Cred: cred, Fault: "complete", Plain: true, Resume: true})
 		}
 	}
+	// a plain-port client that authenticates first
+	for _, cfg := range c09Configs {
+		for _, cred := range []string{"wrong-name", "wrong-name+san", "none", "valid"} {
+			out = append(out, c09Case{Config: cfg, Cred: cred, Fault: "complete", Plain: true, PlainFirst: true})
+		}
+	}
 	// the trusted CA replaced between two runs of the same server object
 	for _, re := range []string{"ca-swap", "ca-swap-restart", "cfg-replaced"} {
 		for _, cfg := range c09Configs {
@@ -555,7 +580,7 @@ func init() {
 	fw.Register(&fw.Prop{
 		ID:    "C09",
 		Level: "model_checking",
-		Rule:  "complete product: server configuration {no rule, common-name rule, rule + password} x client credential {none, plain-text bytes, self-signed, foreign CA, expired, right CA wrong name, right name only on an intermediate, right CA wrong name followed by a self-made certificate with the right name, valid} x handshake fault {complete, abort after ClientHello, stall, garbage} x placement {faulty client first; between two valid clients} x plain port {on, off} = 432 scenarios, plus 27 scenarios in which the server is given a ready tls.Config (SetTLSConfig) instead of certificate files, plus 216 'burst' scenarios in which the faulty client and the following valid client connect concurrently (their sockets can be accepted back to back). The server is configured through its public API and started with Start(); the REAL crypto/tls handshake runs on both sides over the in-memory transport under the cooperative scheduler (clients are tls.Client in harness threads). After the faulty client (and while a stalled one is still connected) a valid TLS client must complete handshake, GET and PING, and a plain client must PING; judged at quiescence, no timers. Quick: every schedule with at most one deviation from the default scheduler; thorough: two. Plus 36 scenarios in which the trusted CA is replaced between two runs of the server object and 12 in which the client under test keeps a TLS session cache and connects three times (resumed handshakes are judged like full ones). A refused client whose handshake completed or who sent garbage must have been disconnected by the server.",
+		Rule:  "complete product: server configuration {no rule, common-name rule, rule + password} x client credential {none, plain-text bytes, self-signed, foreign CA, expired, right CA wrong name, right name only on an intermediate, right CA wrong name followed by a self-made certificate with the right name, valid} x handshake fault {complete, abort after ClientHello, stall, garbage} x placement {faulty client first; between two valid clients} x plain port {on, off} = 432 scenarios, plus 27 scenarios in which the server is given a ready tls.Config (SetTLSConfig) instead of certificate files, plus 216 'burst' scenarios in which the faulty client and the following valid client connect concurrently (their sockets can be accepted back to back). The server is configured through its public API and started with Start(); the REAL crypto/tls handshake runs on both sides over the in-memory transport under the cooperative scheduler (clients are tls.Client in harness threads). After the faulty client (and while a stalled one is still connected) a valid TLS client must complete handshake, GET and PING, and a plain client must PING; judged at quiescence, no timers. Quick: every schedule with at most one deviation from the default scheduler; thorough: two. Plus 36 scenarios in which the trusted CA is replaced between two runs of the server object and 12 in which the client under test keeps a TLS session cache and connects three times (resumed handshakes are judged like full ones). A refused client whose handshake completed or who sent garbage must have been disconnected by the server. Credentials include a certificate with the wrong common name and the configured name among its subject alternative names; 12 scenarios in which a plain-port client authenticates before the TLS client under test connects.",
 		Assumptions: []string{
 			"certificates are generated per run with crypto/x509 (ECDSA P-256); their random keys change bytes, not control flow",
 			"the in-memory transport stands for TCP; a stalled client is one that connects and never sends",
